@@ -195,6 +195,8 @@ func (cs *complexShaperUSE) setupTopographicalMasks(plan *otShapePlan, buffer *B
 			useNumeralCluster, useSymbolCluster, useBrokenCluster:
 			join := lastForm == joiningFormFina || lastForm == joiningFormIsol
 			if join {
+				// the form of each of the two syllables depends on the other one
+				buffer.unsafeToBreak(lastStart, end)
 				// fixup previous syllable's form.
 				if lastForm == joiningFormFina {
 					lastForm = joiningFormMedi
